@@ -82,12 +82,15 @@ def check_ratios(run, A):
     g = A.graphs.get(fn)
     r = [peel(x) for x in ret_alts(g)]
     ok = False
+    _pp = [p_ for p_ in fn.params if p_ not in ('self', 'cls')]
+    if len(_pp) != 2:
+        raise AnalysisError(f'{q}: two parameters (signal power, distortion power) expected, found {_pp}')
     if len(r) == 1:
         c, fs = product_factors(r[0])
         lg = [f for f in fs if is_call_to(peel(f), 'numpy.log10')]
         if abs(c - 10.0) < 1e-12 and len(lg) == 1 and len(fs) == 1:
             a = peel(call_arg(peel(lg[0]), 0))
-            ok = a.op == 'binop' and a.args[0] == 'Div' and strip_views(a.args[1]).op == 'param' and strip_views(a.args[1]).args[0] == 'S' and strip_views(a.args[2]).op == 'param'
+            ok = a.op == 'binop' and a.args[0] == 'Div' and strip_views(a.args[1]).op == 'param' and strip_views(a.args[1]).args[0] == _pp[0] and strip_views(a.args[2]).op == 'param' and strip_views(a.args[2]).args[0] == _pp[1]
     run.check(ok, 'IDENT', '_sxr: 10 log10(S / X)', fn.loc(), '', '_sxr is not the pure ratio 10*log10(S / X)', construct=f'IDENT::{q}::ratio')
 
 
